@@ -10,6 +10,7 @@ import (
 
 	gw "github.com/go-graphite/go-whisper"
 	wt "github.com/hnakamur/whispertool"
+	"github.com/hnakamur/whispertool/cmd"
 	"pgregory.net/rapid"
 )
 
@@ -86,6 +87,42 @@ func runC06(c C06Case, ev *Evid) (fs []Finding) {
 		h.db = nil
 		now = h.now
 		model = h.m
+	case "cli-copy":
+		// the file under test is the destination the copy command creates (possibly with nothing to copy)
+		src := filepath.Join(dir, "src", "f.wsp")
+		h := &histRunner{prop: "C06", l: c.H.L, now: now, m: NewModel(c.H.L), facts: map[string]int{}, dir: dir, path: src}
+		os.MkdirAll(filepath.Dir(src), 0755)
+		db, err := createWT(src, c.H.L)
+		if err != nil {
+			add("create-error", "Create(%s): %v", c.H.L, err)
+			return
+		}
+		h.db = db
+		h.synced = NewModel(c.H.L)
+		for i, op := range c.H.Ops {
+			h.step = i
+			if f := h.apply(op); len(f) > 0 {
+				db.Close()
+				return f
+			}
+		}
+		h.db.Sync()
+		h.db.Close()
+		now = h.now
+		w0 := Window{}
+		if len(c.Windows) > 0 {
+			w0 = c.Windows[0]
+		}
+		cc := &cmd.CopyCommand{SrcBase: filepath.Join(dir, "src"), SrcRelPath: "f.wsp", DestBase: filepath.Join(dir, "dest"), AggregationMethod: wt.AggregationMethod(c.H.L.Method), XFilesFactor: c.H.L.XFF,
+			ArchiveInfoList: wtArchives(c.H.L), From: wt.Timestamp(w0.From), Until: wt.Timestamp(w0.Until), ArchiveID: cmd.ArchiveIDAll, TextOut: ""}
+		if w0.From > w0.Until {
+			cc.From, cc.Until = 0, 0
+		}
+		if err, pm := runCommand(now, cc); err != nil || pm != "" {
+			add("copy-fails", "copy into a missing destination failed: %v %s", err, pm)
+			return
+		}
+		path = filepath.Join(dir, "dest", "f.wsp")
 	case "go-whisper":
 		saved := gw.Now
 		defer func() { gw.Now = saved }()
@@ -136,7 +173,7 @@ func runC06(c C06Case, ev *Evid) (fs []Finding) {
 		add("format", "%s-written file is not classic Whisper: %v", c.Writer, perr)
 		return
 	}
-	if c.Writer == "whispertool" {
+	if c.Writer == "whispertool" || c.Writer == "cli-copy" {
 		want := EncodeLayoutHeader(c.H.L)
 		if string(b[:len(want)]) != string(want) {
 			add("format-header", "header bytes %x differ from the specification encoding %x", b[:len(want)], want)
@@ -161,6 +198,9 @@ func runC06(c C06Case, ev *Evid) (fs []Finding) {
 					wrapWritten++
 				}
 			}
+			if model == nil {
+				continue
+			}
 			for _, ms := range model.Rings[a] {
 				v, ok := f.Lookup(a, ms.interval)
 				if !ok || !sameF(v, ms.value) {
@@ -178,7 +218,7 @@ func runC06(c C06Case, ev *Evid) (fs []Finding) {
 	var g *gw.Whisper
 	var gerr error
 	if pm := guard(func() { g, gerr = gw.Open(path) }); pm != "" || gerr != nil {
-		if c.Writer == "whispertool" {
+		if c.Writer != "go-whisper" {
 			add("reference-open", "go-whisper cannot open the whispertool-written file: %v %s", gerr, pm)
 			return
 		}
@@ -290,14 +330,21 @@ func runC06(c C06Case, ev *Evid) (fs []Finding) {
 
 func TestC06(t *testing.T) {
 	RunProperty(t, Property[C06Case]{
-		ID: "C06",
-		Rule: "rapid-generated layouts x methods x xFilesFactors x write histories by either writer (whispertool with explicit clock; go-whisper with whisper.Now mocked, uncompressed), clock advances up to 3 retentions so rings wrap; then (a) the synced bytes are decoded by the independent specification parser: header encoding, contiguous offsets in declaration order, exact length, every stored interval at the slot the base-interval rule gives, logical content == model (whispertool writer); (b) go-whisper and whispertool open the same bytes and must agree on metadata and on Fetch(from, until) (best archive) for 4 generated + 2 per-archive non-degenerate windows. Non-trivial: >=2 archives written and >=1 window in which both readers return a value. Distinct = hash of the case. Degenerate windows are excluded as the property says; write semantics are not compared.",
+		NoteCases:   true,
+		ID:          "C06",
+		Rule:        "rapid-generated layouts x methods x xFilesFactors x write histories by either writer (whispertool with explicit clock; go-whisper with whisper.Now mocked, uncompressed), clock advances up to 3 retentions so rings wrap; then (a) the synced bytes are decoded by the independent specification parser: header encoding, contiguous offsets in declaration order, exact length, every stored interval at the slot the base-interval rule gives, logical content == model (whispertool writer); (b) go-whisper and whispertool open the same bytes and must agree on metadata and on Fetch(from, until) (best archive) for 4 generated + 2 per-archive non-degenerate windows. Non-trivial: >=2 archives written and >=1 window in which both readers return a value. Distinct = hash of the case. Degenerate windows are excluded as the property says; write semantics are not compared.",
 		Assumptions: []string{"clocks in 2017-2030 (go-whisper uses int clocks of its own)", "cases in which the reference writer itself panics or fails are discarded and counted"},
 		Gen: func(t *rapid.T) C06Case {
 			o := defaultLayoutOpts()
 			l := genLayout(t, o)
-			c := C06Case{Writer: rapid.SampledFrom([]string{"whispertool", "whispertool", "go-whisper"}).Draw(t, "writer")}
-			c.H = genHistoryAt(t, l, histGenOpts{MaxOps: 14, FuturePct: 0, StaleNamed: false}, genNowRealistic(t, l))
+			c := C06Case{Writer: rapid.SampledFrom([]string{"whispertool", "whispertool", "whispertool", "go-whisper", "go-whisper", "cli-copy"}).Draw(t, "writer")}
+			start := genNowRealistic(t, l)
+			if c.Writer != "go-whisper" && rapid.IntRange(0, 9).Draw(t, "epochHigh") == 0 {
+				if hiStart := int64(1)<<32 - 4*l.MaxRet() - 1000000; hiStart > 1<<31 {
+					start = rapid.Int64Range(1<<31, hiStart).Draw(t, "nowHigh")
+				}
+			}
+			c.H = genHistoryAt(t, l, histGenOpts{MaxOps: 14, FuturePct: 0, StaleNamed: false}, start)
 			final := c.H.Now
 			for _, op := range c.H.Ops {
 				final += op.Advance
@@ -310,4 +357,3 @@ func TestC06(t *testing.T) {
 		Run: runC06,
 	})
 }
-
